@@ -21,7 +21,7 @@ for p in props:
     else:
         na.append({"property_id": i, "reason": NA.get(i, "check not built yet in this round (no claim made); see DESIGN.md section 4 for the planned model")})
 m = {"version": 1,
-     "setup_cmd": "cd /verif && python3 translator/gen_kernels.py > /dev/null && python3 translator/gen_func3d.py > /dev/null && python3 translator/gen_keys.py > /dev/null && cd coq && coq_makefile -f _CoqProject -o Makefile && timeout 3000 make -j16",
+     "setup_cmd": "cd /verif && for g in translator/gen_*.py; do python3 $g > /dev/null || exit 1; done && cd coq && coq_makefile -f _CoqProject -o Makefile && timeout 3000 make -j16",
      "hooks": {"guard": "PYQMC_VERIF", "enable": "no source hooks are needed: the harness instruments from outside (monkey-patched numpy.random, h5py, stub wave functions); ./check exports PYQMC_VERIF=1 for uniformity",
                "baseline_off_cmd": BASE, "source_commits": [], "add_only": True},
      "engines": [{"name": "coq-model+correspondence", "path": "/verif/check", "serves_properties": [c["property_id"] for c in checks],
